@@ -487,10 +487,23 @@ pub struct TailCase {
     pub plan: Plan,
     pub filters: Filters,
     pub tokio_workers: usize,
+    /// delay (ms) injected while a task holds the listener connection (guarded point
+    /// `log.stream.locked`): flushes of other tasks then really wait for the connection
+    #[serde(default)]
+    pub lock_delay_ms: u64,
 }
 
 pub fn strategy_c20(max_layer: usize) -> impl Strategy<Value = TailCase> {
-    (plan(max_layer, false), filters(0), proptest::sample::select(vec![1usize, 2, 4, 8])).prop_map(|(mut plan, filters, tw)| {
+    (
+        plan(max_layer, false),
+        filters(0),
+        proptest::sample::select(vec![1usize, 2, 4, 8]),
+        prop_oneof![1 => Just(0u64), 1 => 3u64..40],
+    )
+        .prop_map(|(mut plan, filters, tw, lock_delay_ms)| {
+        // no failing task: a failure cancels the siblings in the middle of their output, and for a
+        // task cut off like that neither "newline-terminated" nor "its stored log" is well defined
+        // (on the unchanged tree the listener may have more or less than what was stored)
         plan.fail = None;
         plan.unterminated = 0;
         // bursts around the flush tick: a few tasks pause close to 500 ms
@@ -503,6 +516,7 @@ pub fn strategy_c20(max_layer: usize) -> impl Strategy<Value = TailCase> {
             plan,
             filters,
             tokio_workers: tw,
+            lock_delay_ms,
         }
     })
 }
@@ -524,7 +538,12 @@ pub fn check_c20(case: &TailCase, w: usize) -> CheckResult {
     for c in &setup.commands {
         args.push(c);
     }
-    let out = env.mr(&args);
+    let points: Vec<(&str, String)> = if case.lock_delay_ms > 0 {
+        vec![("MRV_POINTS", format!("log.stream.locked=delay:{}", case.lock_delay_ms))]
+    } else {
+        vec![]
+    };
+    let out = env.mr_env(&args, &points, Duration::from_secs(300));
     let Some(doc) = out.json() else {
         tail.kill_group();
         return inconclusive(format!("run produced no JSON: {}", out.brief()));
@@ -593,7 +612,9 @@ pub fn check_c20(case: &TailCase, w: usize) -> CheckResult {
             return viol("c20.filter", format!("a block for {:?} was printed although the filters {:?} do not admit it", key, f));
         }
         // every line of the block carries the identity of its writer
-        for line in String::from_utf8_lossy(&b.bytes).lines() {
+        for line in String::from_utf8_lossy(&b.bytes).split_inclusive('\n') {
+            // a cancelled task may end in the middle of a line: only whole lines carry a full tag
+            let Some(line) = line.strip_suffix('\n') else { continue };
             let parts: Vec<&str> = line.split('¦').collect();
             if parts.len() != 4 || parts[0] != b.target || parts[1] != b.command || parts[2] != b.stream {
                 return viol_obs(
@@ -612,7 +633,13 @@ pub fn check_c20(case: &TailCase, w: usize) -> CheckResult {
             for t in g.keys() {
                 for stream in ["stdout", "stderr"] {
                     let key = (stream.to_string(), t.clone(), cmd.clone());
-                    let stored = bb::stored_log(&run_path, cmd, t, stream).map_err(|e| Violation::new("c20.decode", e))?;
+                    // a task skipped after a failure has no log file at all
+                    let file = run_path.join(cmd).join(bb::sha256_hex(t.as_bytes())).join(format!("{}.zst", stream));
+                    let stored = if file.exists() {
+                        bb::stored_log(&run_path, cmd, t, stream).map_err(|e| Violation::new("c20.decode", e))?
+                    } else {
+                        vec![]
+                    };
                     if f.admits(stream, t, cmd) {
                         let got = concat.get(&key).cloned().unwrap_or_default();
                         if got != stored {
@@ -647,6 +674,8 @@ pub fn check_c20(case: &TailCase, w: usize) -> CheckResult {
         .class_if(streams.len() == 2, "both-streams-printed")
         .class_if(case.plan.split_lines != 0, "lines-split-across-the-flush-tick")
         .class_if(case.plan.bursts != 0, "bursts>8KiB-of-multibyte-lines")
+        .class_if(run.failed, "a-task-failed-and-cancelled-its-siblings")
+        .class_if(case.lock_delay_ms > 0, "delay-inside-the-connection-lock")
         .class(&format!("tokio-workers={}", case.tokio_workers))
         .inv(env.invocations))
 }
